@@ -453,6 +453,27 @@ def check_property(pid, tier="quick", seed=0):
                                   f"(unstable proof, e.g. {dropped[0]['fn']}: {dropped[0]['message']}): not reported as violations")
     problems += unstable_notes
 
+    # ---- thorough tier: every unit again under two more solver seeds (default resource limit): a proof
+    # that only holds under one seed is reported (undecided), so that it gets a more explicit proof
+    sweep = []
+    if tier == "thorough":
+        for r in live:
+            if r.compile_errors or [f for f in r.failures if f.get("fn_info") and f["fn_info"]["mode"] == "home"]:
+                continue
+            for alt in (1, 2):
+                r3 = UnitRun(r.name, tier, rlimit=(units[r.name].rlimit or None), extra_args=["--smt-option", f"smt.random_seed={(seed * 31 + 17 * alt) % 1000 + 1}"], use_cache=False)
+                r3.asm, r3.text, r3.path = r.asm, r.text, r.path
+                r3.regions, r3.lines, r3.fn_ranges = r.regions, r.lines, r.fn_ranges
+                try:
+                    r3.run()
+                except Exception as e:
+                    sweep.append({"unit": r.name, "seed_index": alt, "error": str(e)[:200]})
+                    continue
+                bad = sorted({f["fn"] for f in r3.failures if f.get("fn_info") and f["fn_info"]["mode"] == "home"} | set(r3.rlimit_hits))
+                sweep.append({"unit": r.name, "seed_index": alt, "home_failures": bad, "wall_s": round(r3.wall_s, 1)})
+                if bad:
+                    problems.append(f"unit {r.name}: proof of {', '.join(bad[:4])} does not hold under solver seed #{alt} (unstable; passes under the default seed)")
+
     violations = []      # definite: (inf, failure rec, unit run)
     suspects = []        # failures in functions whose proof scaffolding lost an anchor
     strict_fail = []
@@ -621,8 +642,15 @@ def check_property(pid, tier="quick", seed=0):
     os.makedirs(os.path.join(VERIF, "evidence", "replay"), exist_ok=True)
     finder_timeout = 900 if tier == "thorough" else 300
     finder_result = None
-    if replay_built and (real_violations or problems):
+    if tier == "thorough" and replay_built is None:
+        replay_built = build_replay()
+    if replay_built and (real_violations or problems or tier == "thorough"):
         finder_result = run_replay(["search", pid, "any", "any", str(seed)], timeout=finder_timeout)
+    if tier == "thorough" and finder_result and finder_result.get("found") and not real_violations and not problems:
+        # the verifier accepts every obligation but the concrete search on the real code reports a
+        # counterexample: one of the two is wrong (an assumed contract, or the search's oracle);
+        # never an alarm without a failed obligation, never a silent pass either
+        problems.append("concrete search on the real code reports a counterexample although every obligation verified: " + json.dumps(finder_result)[:300])
     found = finder_result if (finder_result and finder_result.get("found")) else None
     seen = set()
     for inf, f, r, why in real_violations:
@@ -670,6 +698,7 @@ def check_property(pid, tier="quick", seed=0):
             "lost_anchors": lost_all,
             "undecided_reasons": problems,
             "failing_input_search": finder_result,
+            "seed_sweep": sweep,
             "back_end": "verus/z3", "solver_ms": solver_ms,
             "known_findings_reported": [l for l in out_lines if l.startswith("KNOWN-FINDING")],
             "bounded_standins": [],
